@@ -18,6 +18,7 @@ type Violation struct {
 	Signature string `json:"signature"`
 	Message   string `json:"message"`
 	Replay    string `json:"replay,omitempty"`
+	Size      int    `json:"size,omitempty"` // size of the failing input; the smallest one per signature is kept
 }
 
 type Known struct {
@@ -142,8 +143,11 @@ func (r *R) IsKnown(sig string) bool {
 func (r *R) Violation(v Violation) {
 	r.mu.Lock()
 	defer r.mu.Unlock()
-	for _, o := range r.violations {
-		if o.Signature == v.Signature && o.Replay == v.Replay {
+	for i, o := range r.violations {
+		if o.Signature == v.Signature {
+			if v.Size > 0 && (o.Size == 0 || v.Size < o.Size) {
+				r.violations[i] = v
+			}
 			return
 		}
 	}
